@@ -84,6 +84,41 @@ impl Selector<Vec<i64>> for DrawThenFail {
         }
     }
 }
+/// waits (up to three seconds) until `parties` selections are inside it at the same time, then selects the first
+/// individual; draws nothing
+pub struct Meet {
+    inside: std::sync::Arc<std::sync::atomic::AtomicUsize>,
+    parties: usize,
+}
+impl Selector<Vec<i64>> for Meet {
+    type Error = Boom;
+    fn select<'p, R: rand::Rng + ?Sized>(&self, pop: &'p Vec<i64>, _: &mut R) -> Result<&'p i64, Boom> {
+        if pop.is_empty() {
+            return Err(Boom(0));
+        }
+        self.inside.fetch_add(1, std::sync::atomic::Ordering::SeqCst);
+        let t0 = std::time::Instant::now();
+        while self.inside.load(std::sync::atomic::Ordering::SeqCst) < self.parties && t0.elapsed().as_secs() < 3 {
+            std::thread::yield_now();
+        }
+        Ok(&pop[0])
+    }
+}
+/// fails (after drawing a word) on odd inputs, x + word % 10 otherwise
+pub struct FailOdd;
+impl Composable for FailOdd {}
+impl Operator<i64> for FailOdd {
+    type Output = i64;
+    type Error = Boom;
+    fn apply<R: rand::Rng + ?Sized>(&self, x: i64, rng: &mut R) -> Result<i64, Boom> {
+        let w = rng.next_u64();
+        if x % 2 != 0 {
+            Err(Boom(w % 100))
+        } else {
+            Ok(x + (w % 10) as i64)
+        }
+    }
+}
 /// x + (word % 10), drawing one word
 pub struct AddWord;
 impl Composable for AddWord {}
@@ -215,6 +250,45 @@ fn run(input: &Tree) -> Option<Tree> {
                     both!(seed, |r| mk().select(popr, r), |r| erased_select(fl, mk, popr, r), f)
                 }
                 6 => both!(seed, |r| DrawThenFail.select(popr, r), |r| erased_select(fl, || DrawThenFail, popr, r), f),
+                7 => {
+                    // FORTY selections through one shared erased selector at the same time (each thread its own generator):
+                    // all of them select what the concrete selector selects
+                    use std::sync::atomic::AtomicUsize;
+                    use std::sync::Arc;
+                    let lone = Meet { inside: Arc::new(AtomicUsize::new(0)), parties: 1 };
+                    both!(
+                        seed,
+                        |r| lone.select(popr, r),
+                        |r| {
+                            let _ = &r;
+                            let shared: Arc<dyn ec_core::operator::selector::DynSelector<Vec<i64>> + Send + Sync> =
+                                Arc::new(Meet { inside: Arc::new(AtomicUsize::new(0)), parties: 40 });
+                            let results: Vec<Option<Result<usize, String>>> = std::thread::scope(|sc| {
+                                let hs: Vec<_> = (0..40u64)
+                                    .map(|t| {
+                                        let sh = Arc::clone(&shared);
+                                        sc.spawn(move || {
+                                            let mut own = Sm::new(seed ^ t);
+                                            sh.select(popr, &mut own).map(|p| popr.iter().position(|q| std::ptr::eq(q, p)).unwrap_or(usize::MAX)).map_err(|e| e.to_string())
+                                        })
+                                    })
+                                    .collect();
+                                hs.into_iter().map(|h| h.join().ok()).collect()
+                            });
+                            let first = results.first().cloned().flatten();
+                            Some(if results.iter().all(|x| x.is_some() && *x == first) {
+                                match first {
+                                    Some(Ok(i)) if i < popr.len() => Ok(&popr[i]),
+                                    Some(Err(m)) => Err(Box::new(Boom(m.rsplit(' ').next().and_then(|d| d.parse().ok()).unwrap_or(999))) as Box<dyn std::error::Error + Send + Sync>),
+                                    _ => Err(Box::new(Msg("a concurrent erased selection selected a non-member".into())) as Box<dyn std::error::Error + Send + Sync>),
+                                }
+                            } else {
+                                Err(Box::new(Msg("concurrent erased selections panicked or disagreed".into())) as Box<dyn std::error::Error + Send + Sync>)
+                            })
+                        },
+                        f
+                    )
+                }
                 _ => None,
             }
         }
@@ -249,6 +323,24 @@ fn run(input: &Tree) -> Option<Tree> {
                     let g: Vec<bool> = (0..6).map(|i| (x >> i) & 1 == 1).collect();
                     both!(seed, |r| Mutate::new(WithRate::new(0.5)).apply(g.clone(), r), |r| erased_apply(fl, || Mutate::new(WithRate::new(0.5)), g.clone(), r), bools)
                 }
+                // four hundred failing applications, then one more (a successful one for even x): nothing a failed call
+                // leaves behind may accumulate
+                5 => both!(
+                    seed,
+                    |r| {
+                        for i in 0..400i64 {
+                            let _ = FailOdd.apply(2 * i + 1, r);
+                        }
+                        FailOdd.apply(x, r)
+                    },
+                    |r| {
+                        for i in 0..400i64 {
+                            let _ = erased_apply(fl, || FailOdd, 2 * i + 1, r)?;
+                        }
+                        erased_apply(fl, || FailOdd, x, r)
+                    },
+                    |v: i64| a(v)
+                ),
                 // an error with a cause behind it: the erased error must still lead to that cause
                 4 => both!(seed, |r| Chained.apply(x, r), |r| erased_apply(fl, || Chained, x, r), |v: i64| a(v)),
                 _ => None,
@@ -305,7 +397,7 @@ impl Operator<i64> for ThenBoxed {
 fn gen(tier: &str, rng: &mut Sm) -> Gen {
     let mut g = Gen::new();
     let reps = if tier == "thorough" { 12 } else { 2 };
-    let impls = [7, 3, 3, 5, 3];
+    let impls = [8, 3, 3, 6, 3];
     for tr in 0..5i64 {
         for im in 0..impls[tr as usize] {
             for fl in 0..NFLAVOURS {
